@@ -665,35 +665,36 @@ theorem settled_of_check {env : Env} {fuel : Nat} {s : St} {g : Graph}
   simp only [hc, ht, hd, Bool.and_self, Bool.not_true, Bool.false_or] at h1
   exact settledAt_of_check h1
 
-/-- `NoMissInPass` and `ReloadsReturn`, as a check (on every step, performed or not) -/
-def stepsReturnHitB (env : Env) (fuel : Nat) (steps : List PassStep) : Bool :=
-  steps.all fun st => reloadHit env fuel st.s st.key &&
-    (match reloadOut env fuel st.s st.key with
-     | .ok _ => true
-     | .err _ => true
-     | _ => false)
+/-- `NoMissInPass`, as a check (on every step, performed or not) -/
+def stepsHitB (env : Env) (fuel : Nat) (steps : List PassStep) : Bool :=
+  steps.all fun st => reloadHit env fuel st.s st.key
+
+/-- `ReloadsReturn`, as a check (on every step, performed or not) -/
+def stepsReturnB (env : Env) (fuel : Nat) (steps : List PassStep) : Bool :=
+  steps.all fun st =>
+    match reloadOut env fuel st.s st.key with
+    | .ok _ => true
+    | .err _ => true
+    | _ => false
 
 theorem noMiss_of_check {env : Env} {fuel : Nat} {steps : List PassStep}
-    (h : stepsReturnHitB env fuel steps = true) : NoMissInPass env fuel steps := by
+    (h : stepsHitB env fuel steps = true) : NoMissInPass env fuel steps := by
   intro st hst _ _ _
-  unfold stepsReturnHitB at h
+  unfold stepsHitB at h
   rw [List.all_eq_true] at h
-  have h1 := h st hst
-  simp only [Bool.and_eq_true] at h1
-  exact h1.1
+  exact h st hst
 
 theorem reloadsReturn_of_check {env : Env} {fuel : Nat} {steps : List PassStep}
-    (h : stepsReturnHitB env fuel steps = true) : ReloadsReturn env fuel steps := by
+    (h : stepsReturnB env fuel steps = true) : ReloadsReturn env fuel steps := by
   intro st hst _ _ _
-  unfold stepsReturnHitB at h
+  unfold stepsReturnB at h
   rw [List.all_eq_true] at h
   have h1 := h st hst
-  simp only [Bool.and_eq_true] at h1
   cases ho : reloadOut env fuel st.s st.key with
   | ok v => exact Or.inl ⟨v, rfl⟩
   | err e => exact Or.inr ⟨e, rfl⟩
-  | panicked => rw [ho] at h1; cases h1.2
-  | diverged => rw [ho] at h1; cases h1.2
+  | panicked => rw [ho] at h1; cases h1
+  | diverged => rw [ho] at h1; cases h1
 
 /-- `NoRewireOntoPending`, as a check -/
 def noRewireB (env : Env) (fuel : Nat) (steps : List PassStep) : Bool :=
